@@ -45,7 +45,7 @@ def _shape(draw, minr, maxr, cap=36):
 def _tree(draw, leaves):
     if len(leaves) == 1:
         return leaves[0]
-    form = draw(st.sampled_from(['tuple', 'list', 'dict']))
+    form = draw(st.sampled_from(['tuple', 'list', 'dict'])) if len(leaves) <= 3 else draw(st.sampled_from(['tuple', 'list']))
     if form == 'dict':
         keys = list(draw(st.permutations(['b', 'a', 'c'])))[: len(leaves)]
         return {'t': 'dict', 'items': [[k, l] for k, l in zip(keys, leaves)]}
@@ -65,6 +65,12 @@ def move_case(draw, mode):
         if math.prod(sh) > 48:
             sh = base
         leaves.append(St.leaf(sh, draw(st.sampled_from(gen.dtypes(mode)))))
+    if draw(st.integers(0, 7)) == 0:
+        # many leaves of one shape and dtype (a pytree of detectors, of frequency maps): 8 to 12 of them
+        small = base if math.prod(base) <= 12 else base[:2]
+        if len(small) < 2:
+            small = [2, 3]
+        leaves = [St.leaf(small, dt) for _ in range(draw(st.integers(8, 12)))]
     shapes = [l['shape'] for l in leaves]
     minr = min(len(s) for s in shapes)
     same = len({len(s) for s in shapes}) == 1
